@@ -28,3 +28,100 @@ package rollout
 //@ props C18 C05
 //@ requires r != nil && c != nil && c.Rollout != nil
 //@ ensures done_means_manager_done: result0 ==> result1 == nil && #canaryFinalising == 1 && #canaryFinalising.ret0 && #canaryFinalising.ret1 == nil
+
+//@ define strat(c) = c.Rollout.Spec.Strategy
+//@ define substatus(c) = ite(c.NewStatus.CanaryStatus != nil, &c.NewStatus.CanaryStatus.CommonStatus, ite(c.NewStatus.BlueGreenStatus != nil, &c.NewStatus.BlueGreenStatus.CommonStatus, nil))
+//@ define allSteps(c) = ite(strat(c).BlueGreen != nil, strat(c).BlueGreen.Steps, strat(c).Canary.Steps)
+
+//@ func newTrafficRoutingContext
+//@ props C03 C04 C09
+//@ requires c != nil && c.Rollout != nil && c.NewStatus != nil && (c.NewStatus.CanaryStatus != nil || c.NewStatus.BlueGreenStatus != nil)
+//@ requires strat(c).BlueGreen != nil || strat(c).Canary != nil
+//@ requires steps_nonempty: len(allSteps(c)) >= 1
+//@ ensures result != nil && fresh(result)
+//@ ensures keeps_flags: result.DisableGenerateCanaryService == ite(strat(c).BlueGreen != nil, strat(c).BlueGreen.DisableGenerateCanaryService, strat(c).Canary.DisableGenerateCanaryService)
+//@ ensures keeps_time: result.LastUpdateTime == substatus(c).LastUpdateTime
+
+// ---------- canary release manager: per-step state machine (C02, C03, C04) ----------
+
+//@ track (*canaryReleaseManager).doCanaryJump as jump
+//@ track (*canaryReleaseManager).doCanaryUpgrade as upgrade
+//@ track (*canaryReleaseManager).doCanaryPaused as paused
+//@ track (*canaryReleaseManager).doCanaryMetricsAnalysis as metrics
+//@ track github.com/openkruise/rollouts/pkg/trafficrouting.(*Manager).DoTrafficRouting as doTR
+//@ track github.com/openkruise/rollouts/pkg/trafficrouting.(*Manager).FinalisingTrafficRouting as finTR
+//@ track github.com/openkruise/rollouts/pkg/trafficrouting.(*Manager).RestoreStableService as restoreStable
+//@ track github.com/openkruise/rollouts/pkg/trafficrouting.(*Manager).PatchStableService as patchStable
+//@ track github.com/openkruise/rollouts/pkg/trafficrouting.(*Manager).RestoreGateway as restoreGateway
+//@ track github.com/openkruise/rollouts/pkg/trafficrouting.(*Manager).RemoveCanaryService as removeCanarySvc
+//@ track runBatchRelease as runBR
+//@ track removeBatchRelease as removeBR
+//@ track finalizingBatchRelease as finalizeBR
+
+//@ define cst(c) = c.NewStatus.CanaryStatus
+//@ define iosPtrEq(a, b) = (a == nil && b == nil) || (a != nil && b != nil && a.Type == b.Type && a.IntVal == b.IntVal && a.StrVal == b.StrVal)
+//@ define steps(c) = c.Rollout.Spec.Strategy.Canary.Steps
+//@ define wfCanaryCtx(c) = c != nil && c.Rollout != nil && c.NewStatus != nil && c.NewStatus.CanaryStatus != nil && c.Workload != nil && c.Rollout.Spec.Strategy.Canary != nil && c.Rollout.Spec.Strategy.BlueGreen == nil
+//@ define idxInRange(c) = 1 <= cst(c).CurrentStepIndex && cst(c).CurrentStepIndex <= len(steps(c))
+//@ define stepHasTraffic(c) = steps(c)[cst(c).CurrentStepIndex - 1].Traffic != nil || len(steps(c)[cst(c).CurrentStepIndex - 1].Matches) != 0
+
+//@ func (*canaryReleaseManager).doCanaryJump
+//@ props C02 C09
+//@ requires wfCanaryCtx(c) && idxInRange(c)
+//@ requires next_in_range: cst(c).NextStepIndex <= len(steps(c))
+//@ ensures no_jump_keeps_state: !jumped ==> cst(c).CurrentStepIndex == old(cst(c).CurrentStepIndex) && cst(c).CurrentStepState == old(cst(c).CurrentStepState) && cst(c).NextStepIndex == old(cst(c).NextStepIndex)
+//@ ensures jump_only_on_request: jumped ==> old(cst(c).NextStepIndex) > 0 && old(cst(c).NextStepIndex) != ite(old(cst(c).CurrentStepIndex) >= len(steps(c)), 0 - 1, old(cst(c).CurrentStepIndex) + 1) && cst(c).CurrentStepIndex == old(cst(c).NextStepIndex)
+//@ ensures jump_lands_in_range: jumped ==> 1 <= cst(c).CurrentStepIndex && cst(c).CurrentStepIndex <= len(steps(c))
+//@ ensures jump_state: jumped ==> cst(c).CurrentStepState == v1beta1.CanaryStepStateInit || cst(c).CurrentStepState == v1beta1.CanaryStepStateTrafficRouting
+//@ ensures jump_skips_upgrade_only_for_same_replicas: jumped && cst(c).CurrentStepState == v1beta1.CanaryStepStateTrafficRouting ==> iosPtrEq(steps(c)[cst(c).CurrentStepIndex - 1].Replicas, steps(c)[old(cst(c).CurrentStepIndex) - 1].Replicas)
+
+//@ func (*canaryReleaseManager).doCanaryPaused
+//@ props C02
+//@ requires wfCanaryCtx(c) && idxInRange(c) && cst(c).LastUpdateTime != nil
+//@ ensures approval_or_duration: result0 ==> result1 == nil && ((old(cst(c).CurrentStepIndex) == len(steps(c)) && steps(c)[old(cst(c).CurrentStepIndex) - 1].Replicas != nil && steps(c)[old(cst(c).CurrentStepIndex) - 1].Replicas.StrVal == "100%") || steps(c)[old(cst(c).CurrentStepIndex) - 1].Pause.Duration != nil)
+//@ ensures never_errors: result1 == nil
+//@ ensures state_untouched: cst(c).CurrentStepIndex == old(cst(c).CurrentStepIndex) && cst(c).CurrentStepState == old(cst(c).CurrentStepState)
+
+//@ func (*canaryReleaseManager).doCanaryUpgrade
+//@ props C02 C03
+//@ requires m != nil && wfCanaryCtx(c)
+//@ ensures done_means_batch_ready: result0 ==> result1 == nil && #runBR == 1 && #runBR.ret0 && #runBR.ret2 == nil && #runBR.ret1 != nil && as(#runBR.ret1, "*v1beta1.BatchRelease").Status.CanaryStatus.CurrentBatchState == v1beta1.ReadyBatchState && as(#runBR.ret1, "*v1beta1.BatchRelease").Status.CanaryStatus.CurrentBatch + 1 >= cst(c).CurrentStepIndex && as(#runBR.ret1, "*v1beta1.BatchRelease").Generation == as(#runBR.ret1, "*v1beta1.BatchRelease").Status.ObservedGeneration
+//@ ensures batch_is_step: #runBR == 1 && #runBR.arg3 == old(cst(c).CurrentStepIndex)
+//@ ensures state_untouched: cst(c).CurrentStepIndex == old(cst(c).CurrentStepIndex) && cst(c).CurrentStepState == old(cst(c).CurrentStepState)
+
+//@ define S_Init() = v1beta1.CanaryStepStateInit
+//@ define S_Upgrade() = v1beta1.CanaryStepStateUpgrade
+//@ define S_Traffic() = v1beta1.CanaryStepStateTrafficRouting
+//@ define S_Metrics() = v1beta1.CanaryStepStateMetricsAnalysis
+//@ define S_Paused() = v1beta1.CanaryStepStatePaused
+//@ define S_Ready() = v1beta1.CanaryStepStateReady
+//@ define S_Completed() = v1beta1.CanaryStepStateCompleted
+//@ define st0(c) = old(cst(c).CurrentStepState)
+//@ define st1(c) = cst(c).CurrentStepState
+//@ define idx0(c) = old(cst(c).CurrentStepIndex)
+//@ define idx1(c) = cst(c).CurrentStepIndex
+//@ define jumped() = #jump == 1 && #jump.ret0
+//@ define upgradedOK() = #upgrade == 1 && #upgrade.ret0 && #upgrade.ret1 == nil
+//@ define routedOK() = #doTR == 1 && #doTR.ret0 && #doTR.ret1 == nil
+//@ define pausedOK() = #paused == 1 && #paused.ret0 && #paused.ret1 == nil
+
+// The per-step sub-state machine: runCanary's postcondition is its transition relation (DESIGN.md section 8, C02).
+//@ func (*canaryReleaseManager).runCanary
+//@ props C02 C03 C04
+//@ requires m != nil && m.trafficRoutingManager != nil && wfCanaryCtx(c) && idxInRange(c)
+//@ requires next_in_range: cst(c).NextStepIndex <= len(steps(c))
+//@ requires cst(c).LastUpdateTime != nil
+//@ requires replicas_set: forall k :: 0 <= k && k < len(steps(c)) ==> steps(c)[k].Replicas != nil
+//@ ensures index_moves_only_by_jump_or_ready: idx1(c) != idx0(c) ==> jumped() || (st0(c) == S_Ready() && idx1(c) == idx0(c) + 1 && idx0(c) < len(steps(c)) && st1(c) == S_Init() && result == nil)
+//@ ensures ready_needs_pause_gate: st1(c) == S_Ready() && st0(c) != S_Ready() && !jumped() ==> st0(c) == S_Paused() && pausedOK()
+//@ ensures paused_after_analysis: st1(c) == S_Paused() && st0(c) != S_Paused() && !jumped() ==> st0(c) == S_Metrics()
+//@ ensures analysis_after_routing: st1(c) == S_Metrics() && st0(c) != S_Metrics() && !jumped() ==> (st0(c) == S_Traffic() && routedOK()) || ((st0(c) == S_Init() || st0(c) == S_Upgrade()) && upgradedOK())
+//@ ensures routing_after_upgrade: st1(c) == S_Traffic() && st0(c) != S_Traffic() && !jumped() ==> (st0(c) == S_Init() || st0(c) == S_Upgrade()) && upgradedOK()
+//@ ensures completed_only_from_ready: st1(c) == S_Completed() && st0(c) != S_Completed() && !jumped() ==> st0(c) == S_Ready() && idx0(c) >= len(steps(c))
+//@ ensures upgrade_only_from_init: st1(c) == S_Upgrade() && st0(c) != S_Upgrade() && !jumped() ==> st0(c) == S_Init()
+//@ ensures init_only_from_ready: st1(c) == S_Init() && st0(c) != S_Init() && !jumped() ==> st0(c) == S_Ready()
+//@ ensures traffic_written_only_in_routing_state: #doTR > 0 ==> st0(c) == S_Traffic() && !jumped()
+//@ ensures pods_upgraded_only_in_upgrade_states: #upgrade > 0 ==> (st0(c) == S_Init() || st0(c) == S_Upgrade()) && !jumped()
+//@ ensures jump_does_nothing_else: jumped() ==> #upgrade == 0 && #doTR == 0 && #paused == 0 && result == nil
+//@ ensures {C03} stable_pinned_before_first_upgrade: #upgrade > 0 && st0(c) == S_Init() && idx0(c) == 1 && old(stepHasTraffic(c)) && !old(c.Rollout.Spec.Strategy.Canary.DisableGenerateCanaryService) ==> #patchStable == 1 && !#patchStable.ret0 && #patchStable.ret1 == nil
+//@ ensures {C04} stable_unpinned_before_full_replacement: #upgrade > 0 && st0(c) == S_Init() && old(stepHasTraffic(c)) && #restoreStable > 0 ==> !#restoreStable.ret0 && #restoreStable.ret1 == nil
